@@ -301,9 +301,9 @@ Plan genCodec(const std::string& prop, int tier, uint64_t batchSeed, uint64_t id
         nOps = 2 + r.below(8);
     else
         nOps = (1 + r.below(6)) * nNodes;
-    // one run in fifty: HUNDREDS of small encode calls on the same encoder(s) - whatever is counted, recycled or tidied up
+    // one run in a hundred: HUNDREDS of small encode calls on the same encoder(s) - whatever is counted, recycled or tidied up
     // "every n-th call" (256, 512, 1000, 1024) gets its turn; the frame budget below still ends the run
-    const bool manyCalls = !wrapRun && r.chance(1, 50);
+    const bool manyCalls = !wrapRun && r.chance(1, 100);
     if (manyCalls)
         nOps = 270 + r.below(850);
 
